@@ -1,23 +1,43 @@
-"""Native check of `rewrite_const`: the original initialiser expression of a fn-local const is const-evaluated by rustc
-and compared with the literal the mirror uses instead."""
+"""Native checks of the literals the mirror uses instead of const expressions rustc evaluates at compile time:
+ * `rewrite_const`: fn-local const initialisers (e.g. F_MONT in inv_ntt);
+ * `modconsts`: the per-parameter-set constants of lib.rs (incl. BETA, LAMBDA_DIV4, W1_LEN computed in the macro).
+The original expressions are copied verbatim from /repo into a tiny program, compiled with rustc and run."""
 import os, subprocess, re
+from . import rustscan as rs
 
 
 def check_consts(b, scratch):
-    if not b.const_checks:
+    if not b.const_checks and not b.modconsts:
         return []
-    lib = b.src['lib.rs'].text
-    consts = '\n'.join(re.findall(r'(?m)^const (?:Q|ZETA|D): [a-z0-9]+ = [^;]*;', lib))
+    lib = b.src['lib.rs']
+    consts = '\n'.join(re.findall(r'(?m)^const (?:Q|ZETA|D): [a-z0-9]+ = [^;]*;', lib.text))
+    hs = b.src['helpers.rs']
+    sp = rs.find_fn(hs.mask, 'bit_length')
+    bitlen = hs.text[sp.start:sp.end].replace('pub(crate)', 'pub') if sp else ''
     body = ''
-    for i, c in enumerate(b.const_checks):
+    for c in b.const_checks:
         body += '    { const X: %s = %s; assert_eq!(X as i128, (%s) as i128, "%s::%s"); }\n' % (c['ty'], c['expr'], c['value'], c['fn'], c['name'])
-    src = '#![allow(dead_code)]\n' + consts + '\nfn main() {\n' + body + '    println!("const-eval ok");\n}\n'
+    mods = ''
+    msp = rs.find_item(lib.mask, r'macro_rules! functionality')
+    mconsts = ''
+    if msp:
+        mconsts = '\n'.join(m.group(0).strip() for m in re.finditer(r'(?m)^[ \t]*const\s+[A-Z0-9_]+\s*:[^;]*;', lib.text[msp.body_open:msp.body_close]))
+    for mc in b.modconsts:
+        sp2 = rs.find_item(lib.mask, r'pub mod ' + mc['module'] + r'\b')
+        if sp2 is None:
+            return ['const-eval: module %s not found in lib.rs' % mc['module']]
+        lines = '\n'.join(m.group(0).strip() for m in re.finditer(r'(?m)^[ \t]*(?:pub\s+)?const\s+[A-Z0-9_]+\s*:[^;]*;', lib.text[sp2.body_open:sp2.body_close]))
+        checks = '\n'.join('        assert_eq!(%s as i128, (%s) as i128, "%s::%s");' % (k, v, mc['module'], k) for k, v in mc['values'].items())
+        mods += 'mod %s {\n    use super::*;\n%s\n%s\n    pub fn check() {\n%s\n    }\n}\n' % (mc['module'], lines, mconsts, checks)
+        body += '    %s::check();\n' % mc['module']
+    src = ('#![allow(dead_code, unused_imports)]\n' + consts + '\nmod helpers { use super::*; ' + bitlen + ' }\n' + mods +
+           'fn main() {\n' + body + '    println!("const-eval ok");\n}\n')
     d = os.path.join(scratch, 'consteval')
     os.makedirs(d, exist_ok=True)
     open(os.path.join(d, 'c.rs'), 'w').write(src)
     p = subprocess.run(['rustc', '-O', '-o', 'c', 'c.rs'], cwd=d, capture_output=True, text=True)
     if p.returncode != 0:
-        return ['const-eval compile failed: ' + p.stderr[-500:]]
+        return ['const-eval compile failed: ' + p.stderr[-800:]]
     p = subprocess.run(['./c'], cwd=d, capture_output=True, text=True)
     if p.returncode != 0 or 'const-eval ok' not in p.stdout:
         return ['const-eval mismatch: ' + (p.stderr or p.stdout)[-500:]]
